@@ -855,7 +855,7 @@ class ChannelStats:
         """
         return np.divide(
             self._moments["m3"],
-            np.power(self._moments["m2"], 1.5),
+            np.power(self._moments["m2"].astype(np.float64), 1.5),
             out=np.zeros_like(self._moments["m3"]),
             where=self._moments["m2"] != 0,
         ) * np.sqrt(self.nsamps)
@@ -872,7 +872,7 @@ class ChannelStats:
         return (
             np.divide(
                 self._moments["m4"],
-                np.power(self._moments["m2"], 2.0),
+                np.power(self._moments["m2"].astype(np.float64), 2.0),
                 out=np.zeros_like(self._moments["m4"]),
                 where=self._moments["m2"] != 0,
             )
